@@ -18,9 +18,16 @@ class XmlGenerator(TreeListener):
         self.xml = {}
 
     def exitEquation(self, tree: ast.Equation):
+        if isinstance(tree.left, ast.Symbol):
+            # flatten() turns the declaration equation of `Real x = 1;` into an
+            # Equation whose left side is the Symbol itself: refer to the variable
+            # (its <component> element belongs to the class, not to the equation)
+            left = E("local", name=tree.left.name)
+        else:
+            left = self.xml[tree.left]
         self.xml[tree] = E(
             "equal",
-            self.xml[tree.left],
+            left,
             self.xml[tree.right],
         )
 
